@@ -126,3 +126,19 @@ contract(CAQ + "process_ast_node", props=["C11", "C02", "C06"], aliases={"self":
                 5: dict(modifies=["_class_vars", "_statements"],
                         invariant=PAN_BLK + [("I6", "len(field(blk, '_statements')) == len(field(cpp_ast_node, 'running_code')) and field(gc, '_book_block') != blk"),
                                              ("I6.lines", "all(cls_is(field(blk, '_statements')[k], 'func_adl_xAOD.common.statement.arbitrary_statement') and field(field(blk, '_statements')[k], '_line') == subst_words(field(cpp_ast_node, 'running_code')[k], repl_list) for k in range(0, len(field(cpp_ast_node, 'running_code'))))")])})
+# ---- call-site discovery of injected functions, methods and collections (cpp_ast_finder.visit_Call) ---------------------------------------------------
+CAF = "func_adl_xAOD.common.cpp_ast.cpp_ast_finder"
+uninterpreted("callback_result", [Func, Ref], Ref)   # ghost: what a registered callback returns for a call node (the callbacks are build_CPPCodeValue /
+#                                                       get_collection closures, each under its own contract; here only WHICH callback is applied matters)
+contract("verif.closure._method_names", assumed=True, params=dict(call_node=Ref), result=Ref, modifies=["func", "alloc"],
+         note="a callback of the call-site table applied to a call node: an abstract result (the callbacks themselves are verified separately)")
+contract(CAF + ".visit_Call", props=["C11", "C06"], params=dict(self=RefOf(CAF), node=RefOf("ast.Call")), result=Ref,
+         requires=["field(node, 'func') != None and live(field(node, 'func'))",
+                   "implies(cls_is(field(node, 'func'), 'ast.Attribute'), field(field(node, 'func'), 'value', 'ast.Attribute') != None and live(field(field(node, 'func'), 'value', 'ast.Attribute')))"],
+         modifies=["ghost:gv_log", "func", "args", "alloc"], may_raise=["Exception"], strict=False,
+         ensures=[("children_first@C11", "len(gv_log) >= len(old(gv_log)) + 1 and gv_log[len(old(gv_log))] == node"),
+                  ("only_registered_names_are_rewritten@C11,C06",
+                   "implies(not ((cls_is(old(field(node, 'func')), 'ast.Name') and field(old(field(node, 'func')), 'id') in field(self, '_method_names', '" + CAF + "')) or "
+                   "(cls_is(old(field(node, 'func')), 'ast.Attribute') and cls_is(field(old(field(node, 'func')), 'value', 'ast.Attribute'), 'ast.Name') and "
+                   " field(old(field(node, 'func')), 'attr') in field(self, '_method_names', '" + CAF + "'))), result == node)"),
+                  ("table_untouched", "field(self, '_method_names', '" + CAF + "') == old(field(self, '_method_names', '" + CAF + "'))")])
